@@ -66,6 +66,9 @@ def run_random_case(ctx, kind, idx):
         ctx.count("large:len(x)*len(x_ref)>2**20" if len(case["x"]) * len(case["x_ref"]) > 2 ** 20 else "large:below_2**20")
     if case["alpha"] == 1.0 and rng.integers(0, 10) < 6:
         case["alpha"] = float(rng.choice([0.25, 0.5, 2.0, 3.7, float(rng.uniform(0.1, 6.0))]))
+        if case.get("alpha_arg") is not None:       # keep the exponent's type, with the new value
+            case["alpha_arg"] = type(case["alpha_arg"])(case["alpha"])
+            case["alpha"] = float(case["alpha_arg"])
     cid = ctx.case_id(kind, idx)
     try:
         with fp_watch(ctx):
